@@ -402,4 +402,379 @@ theorem insert_getter {g gq g1 : GCtx D L} {q : Getter} {v : GVal} (hq : g.get e
 
 end Purity
 
+/-! ## 3. consistency between the getters -/
+
+theorem asCInt_small (n : Nat) (h : n < 2147483648) : asCInt n = (n : Int) := by
+  unfold asCInt
+  have : n % 4294967296 = n := Nat.mod_eq_of_lt (by omega)
+  rw [this, if_pos h]
+
+/-- `aux_Check = 1 ↔ aux_Length > 0` (a notification shorter than 2^31 characters) -/
+theorem aux_check_iff_length (f : GFacts) (s : GSlots) (h : f.notice.length < 2147483648) :
+    ∃ chk len, getOn f s (.plain "chewing_aux_Check") = .ok (s, .int chk) ∧
+      getOn f s (.plain "chewing_aux_Length") = .ok (s, .int len) ∧ (chk = 1 ↔ 0 < len) ∧
+      len = (f.notice.length : Int) := by
+  refine ⟨_, _, value_aux_Check f s, value_aux_Length f s, ?_, asCInt_small _ h⟩
+  rw [asCInt_small _ h]
+  cases hn : f.notice with
+  | nil => simp [boolInt]
+  | cons a t => simp [boolInt]
+
+/-- `commit_Check = 1 ↔` the commit string is non-empty `↔ commit_String` is not "" -/
+theorem commit_check_iff (f : GFacts) (s : GSlots) :
+    ∃ chk, getOn f s (.plain "chewing_commit_Check") = .ok (s, .int chk) ∧ (chk = 1 ↔ f.commit ≠ []) ∧
+      (chk = 0 ∨ chk = 1) := by
+  refine ⟨_, value_commit_Check f s, ?_, ?_⟩
+  · cases f.commit <;> simp [boolInt]
+  · cases f.commit <;> simp [boolInt]
+
+/-- `cand_CheckDone = 1 ↔` no list is open; it is the negation of `is_selecting()` -/
+theorem check_done_iff (f : GFacts) (s : GSlots) :
+    ∃ d, getOn f s (.plain "chewing_cand_CheckDone") = .ok (s, .int d) ∧ (d = 1 ↔ f.isSelecting = false) ∧
+      (d = 0 ↔ f.isSelecting = true) := by
+  refine ⟨_, value_cand_CheckDone f s, ?_, ?_⟩ <;> cases f.isSelecting <;> simp
+
+/-- FULL statement "buffer_Len is the number of characters of buffer_String" -/
+def BufferLenIsChars : Prop := ∀ f : GFacts, f.isEmpty = (f.len == 0) → f.len < 2147483648 → asCInt f.len = (f.display.length : Int)
+
+/-- … is NOT what the code says: `buffer_Len` is `editor.len()`, the number of SYMBOLS; a syllable without a word is
+    displayed spelled out (one symbol, two or more characters).  Facts of such a buffer (observed by the harness:
+    statistic `observations_with_a_spelled_syllable_in_the_display`): -/
+theorem buffer_len_is_chars_refuted : ¬ BufferLenIsChars := by
+  intro h
+  have := h { display := [0x3118, 0x311C], len := 1, isEmpty := false, cursor := 1, commit := [], notice := [], bopo := [],
+              enteringSyllable := false, isSelecting := false, allCandidates := none, paginated := none,
+              totalPage := none, currentPageNo := none, hasNextSel := false, hasPrevSel := false,
+              intervals := [(0, 1, false)], last := .absorb, options := Config.init.opts } rfl (by decide)
+  revert this
+  decide
+
+section Consistency
+variable {D L : Type} (env : Env D L) (bopo : L → Text)
+
+/-- the facts of an editor of the model, field by field -/
+theorem ofEditor_ok {e : Editor D L} {f : GFacts} (h : GFacts.ofEditor env bopo e = .ok f) :
+    ∃ ivs all pag tp, Shared.conversion env e.shared = .ok ivs ∧ e.allCandidates env = .ok all ∧
+      e.paginatedCandidates env = .ok pag ∧ e.totalPage env = .ok tp ∧
+      f.display = ivs.flatMap (·.text) ∧ f.len = e.shared.com.len ∧ f.isEmpty = e.shared.com.isEmpty ∧
+      f.cursor = e.shared.com.cursor ∧ f.commit = e.shared.commitBuf ∧ f.notice = e.shared.noticeBuf ∧
+      f.isSelecting = e.isSelecting ∧ f.allCandidates = all ∧ f.paginated = pag ∧ f.totalPage = tp ∧
+      f.currentPageNo = e.currentPageNo ∧ f.last = e.shared.last ∧ f.options = cfgOfOptions e.shared.options ∧
+      f.bopo = bopo e.shared.syl ∧ f.enteringSyllable = !env.sylIsEmpty e.shared.syl := by
+  unfold GFacts.ofEditor at h
+  split at h
+  · rename_i ivs all pag tp hn hp h1 h2 h3 h4 h5 h6
+    simp only [Outcome.ok.injEq] at h
+    subst h
+    exact ⟨ivs, all, pag, tp, h1, h2, h3, h4, rfl, rfl, rfl, rfl, rfl, rfl, rfl, rfl, rfl, rfl, rfl, rfl, rfl, rfl, rfl⟩
+  all_goals cases h
+
+/-- the value of a plain getter on a context whose facts are `f` -/
+theorem value_of_facts {g : GCtx D L} {f : GFacts} (hf : GFacts.ofEditor env bopo g.ctx.editor = .ok f) {fn : String}
+    {s' : GSlots} {v : GVal} (hv : getOn f g.slots (.plain fn) = .ok (s', v)) : g.value env bopo fn = .ok v := by
+  simp only [GCtx.value, GCtx.get, hf, hv, Outcome.map]
+
+/-- **`buffer_Check = 1 ↔ buffer_Len > 0`**, and `buffer_Len` is the number of symbols of the pre-edit buffer -/
+theorem buffer_check_iff_len {g : GCtx D L} {f : GFacts} (hf : GFacts.ofEditor env bopo g.ctx.editor = .ok f)
+    (hlen : g.ctx.editor.shared.com.len < 2147483648) :
+    ∃ chk len, g.value env bopo "chewing_buffer_Check" = .ok (.int chk) ∧
+      g.value env bopo "chewing_buffer_Len" = .ok (.int len) ∧ (chk = 1 ↔ 0 < len) ∧
+      len = (g.ctx.editor.shared.com.len : Int) := by
+  obtain ⟨_, _, _, _, _, _, _, _, _, hl, he, _⟩ := ofEditor_ok env bopo hf
+  refine ⟨_, _, value_of_facts env bopo hf (value_buffer_Check f g.slots),
+    value_of_facts env bopo hf (value_buffer_Len f g.slots), ?_, ?_⟩
+  · rw [hl, he, asCInt_small _ hlen]
+    unfold CompEditor.isEmpty Composition.isEmpty CompEditor.len
+    cases hc : g.ctx.editor.shared.com.inner.len with
+    | zero => simp [boolInt]
+    | succ n => simp [boolInt]
+  · rw [hl, asCInt_small _ hlen]
+
+/-- **`0 ≤ cursor_Current ≤ buffer_Len`** under C05's invariant of the composition editor -/
+theorem cursor_le_len {g : GCtx D L} {f : GFacts} (hf : GFacts.ofEditor env bopo g.ctx.editor = .ok f)
+    (hi : C05.CursorInv g.ctx.editor.shared.com) (hlen : g.ctx.editor.shared.com.len < 2147483648) :
+    ∃ cur len, g.value env bopo "chewing_cursor_Current" = .ok (.int cur) ∧
+      g.value env bopo "chewing_buffer_Len" = .ok (.int len) ∧ 0 ≤ cur ∧ cur ≤ len := by
+  obtain ⟨_, _, _, _, _, _, _, _, _, hl, _, hc, _⟩ := ofEditor_ok env bopo hf
+  have hle : g.ctx.editor.shared.com.cursor ≤ g.ctx.editor.shared.com.len := hi.2
+  refine ⟨_, _, value_of_facts env bopo hf (value_cursor_Current f g.slots),
+    value_of_facts env bopo hf (value_buffer_Len f g.slots), ?_, ?_⟩
+  · rw [hc, asCInt_small _ (by omega)]; omega
+  · rw [hc, hl, asCInt_small _ (by omega), asCInt_small _ hlen]; omega
+
+/-- C05's invariant holds after every history of editor operations (`C05.cursor_le_len_editor`), hence
+    `cursor_le_len` applies to every context whose editor was reached from a fresh one -/
+theorem cursor_le_len_history (ops : List (Op L)) (e e' : Editor D L) (h0 : e.shared.com = {})
+    (h : e.run env ops = .ok e') : C05.CursorInv e'.shared.com :=
+  C05.cursor_le_len_editor env ops e e' (by rw [h0]; exact C05.cursorInv_new) h
+
+/-- `chewing_commit_Check` of this model is the `CCtx.commitCheck` of the call-glue model (round 3), for which
+    `C06CApi.C_getters_truthful` proves `= 1 ↔` the key result is Commit (with `C02.commit_string_iff_result`) -/
+theorem commit_check_is_glue_getter {g : GCtx D L} {f : GFacts} (hf : GFacts.ofEditor env bopo g.ctx.editor = .ok f) :
+    g.value env bopo "chewing_commit_Check" = .ok (.int g.ctx.commitCheck) ∧
+    g.value env bopo "chewing_keystroke_CheckIgnore" = .ok (.int g.ctx.keystrokeCheckIgnore) ∧
+    g.value env bopo "chewing_keystroke_CheckAbsorb" = .ok (.int g.ctx.keystrokeCheckAbsorb) := by
+  obtain ⟨_, _, _, _, _, _, _, _, _, _, _, _, hc, _, _, _, _, _, _, hl, _⟩ := ofEditor_ok env bopo hf
+  refine ⟨?_, ?_, ?_⟩
+  · rw [value_of_facts env bopo hf (value_commit_Check f g.slots), hc]
+    unfold CCtx.commitCheck
+    cases g.ctx.editor.shared.commitBuf <;> simp [boolInt]
+  · rw [value_of_facts env bopo hf (value_CheckIgnore f g.slots), hl, C06CApi.checkIgnore_eq]
+  · rw [value_of_facts env bopo hf (value_CheckAbsorb f g.slots), hl, C06CApi.checkAbsorb_eq]
+
+/-- **after a key: `commit_Check = 1 ↔` the key was answered Commit** (`C06CApi.C_getters_truthful` on this model's getter) -/
+theorem commit_check_iff_key_result (hH : C02.ConvHeadText env) {g : GCtx D L} {ev : KeyEvent} {e' : Editor D L} {b : KB}
+    (h : g.ctx.editor.processKey env ev = .ok (e', b)) {f : GFacts}
+    (hf : GFacts.ofEditor env bopo e' = .ok f) :
+    ∃ chk, ({ g with ctx := { g.ctx with editor := e' } } : GCtx D L).value env bopo "chewing_commit_Check" = .ok (.int chk) ∧
+      (chk = 1 ↔ b = .commit) := by
+  refine ⟨_, (commit_check_is_glue_getter env bopo (g := { g with ctx := { g.ctx with editor := e' } }) hf).1, ?_⟩
+  exact (C06CApi.C_getters_truthful env hH (c := g.ctx) h).2.2.1
+
+/-- **while a list is open: `cand_TotalPage = ⌈TotalChoice / ChoicePerPage⌉`** (C07's `page_count`), with the facts behind
+    the four counters -/
+theorem total_page_ceil {e : Editor D L} {f : GFacts} {s : Selecting} (hf : GFacts.ofEditor env bopo e = .ok f)
+    (hs : e.state = .selecting s) :
+    ∃ cs, f.allCandidates = some cs ∧ f.isSelecting = true ∧ f.currentPageNo = some s.pageNo ∧
+      f.options.candidatesPerPage = e.shared.options.candidatesPerPage ∧ 0 < f.options.candidatesPerPage ∧
+      f.totalPage = some (pageCount cs.length f.options.candidatesPerPage) ∧
+      cs.length ≤ pageCount cs.length f.options.candidatesPerPage * f.options.candidatesPerPage ∧
+      (∀ k, cs.length ≤ k * f.options.candidatesPerPage → pageCount cs.length f.options.candidatesPerPage ≤ k) := by
+  obtain ⟨_, all, _, tp, _, hall, _, htp, _, _, _, _, _, _, hsel, hfa, _, hft, hcp, _, hopt, _⟩ := ofEditor_ok env bopo hf
+  have hper : f.options.candidatesPerPage = e.shared.options.candidatesPerPage := by rw [hopt]; rfl
+  unfold Editor.totalPage at htp
+  rw [hs] at htp
+  dsimp only at htp
+  cases ht : Selecting.totalPage env s e.shared with
+  | ok n =>
+    rw [ht] at htp
+    simp only [Outcome.map, Outcome.ok.injEq] at htp
+    obtain ⟨cs, hc, hpos, hn, hcov, hleast, _⟩ := C07.page_count env ht
+    have hall' := (C07.total_is_length env hs hc).2.1
+    rw [hall'] at hall
+    simp only [Outcome.ok.injEq] at hall
+    refine ⟨cs, by rw [hfa, ← hall], ?_, ?_, hper, by rw [hper]; exact hpos, ?_, ?_, ?_⟩
+    · rw [hsel]; unfold Editor.isSelecting; rw [hs]
+    · rw [hcp]; unfold Editor.currentPageNo; rw [hs]
+    · rw [hft, ← htp, hn, hper]
+    · rw [hper, ← hn]; exact hcov
+    · intro k hk; rw [hper] at hk ⊢; rw [← hn]; exact hleast k hk
+  | panic p => rw [ht] at htp; simp only [Outcome.map] at htp; cases htp
+  | outOfFuel => rw [ht] at htp; simp only [Outcome.map] at htp; cases htp
+
+/-- **`CurrentPage < TotalPage` while a list is open** — under C07's page invariant (`Editor.PageInv`, kept by every
+    operation: `C07.page_in_range`) — unless nothing is listed at all -/
+theorem current_page_in_range {e : Editor D L} {f : GFacts} {s : Selecting} (hf : GFacts.ofEditor env bopo e = .ok f)
+    (hs : e.state = .selecting s) (hp : Editor.PageInv env e) :
+    ∃ cur tp, f.currentPageNo = some cur ∧ f.totalPage = some tp ∧ (cur < tp ∨ f.allCandidates = some []) := by
+  obtain ⟨cs, hall, _, hcur, hper, _, htp, _, _⟩ := total_page_ceil env bopo hf hs
+  refine ⟨s.pageNo, _, hcur, htp, ?_⟩
+  obtain ⟨_, all, _, tp, _, hall2, _, htp2, _, _, _, _, _, _, _, hfa, _, hft, _⟩ := ofEditor_ok env bopo hf
+  unfold Editor.totalPage at htp2
+  rw [hs] at htp2
+  dsimp only at htp2
+  cases ht : Selecting.totalPage env s e.shared with
+  | ok n =>
+    rw [ht] at htp2
+    simp only [Outcome.map, Outcome.ok.injEq] at htp2
+    have hn : some n = some (pageCount cs.length f.options.candidatesPerPage) := by rw [htp2, ← hft, htp]
+    simp only [Option.some.injEq] at hn
+    cases hp s hs n ht with
+    | inl h => left; rw [← hn]; exact h
+    | inr h =>
+      right
+      have := (C07.total_is_length env hs h).2.1
+      rw [this] at hall2
+      simp only [Outcome.ok.injEq] at hall2
+      rw [hfa, ← hall2]
+  | panic p => rw [ht] at htp2; simp only [Outcome.map] at htp2; cases htp2
+  | outOfFuel => rw [ht] at htp2; simp only [Outcome.map] at htp2; cases htp2
+
+/-- **no list open: `CheckDone = 1` and the counters answer 0** (`TotalPage`, `TotalChoice`, `CurrentPage`; the list
+    navigation getters answer 0, `cand_hasNext` answers 0) -/
+theorem counters_zero_when_done {e : Editor D L} {f : GFacts} (hf : GFacts.ofEditor env bopo e = .ok f)
+    (hs : e.isSelecting = false) (sl : GSlots) :
+    getOn f sl (.plain "chewing_cand_CheckDone") = .ok (sl, .int 1) ∧
+    getOn f sl (.plain "chewing_cand_TotalPage") = .ok (sl, .int 0) ∧
+    getOn f sl (.plain "chewing_cand_TotalChoice") = .ok (sl, .int 0) ∧
+    getOn f sl (.plain "chewing_cand_CurrentPage") = .ok (sl, .int 0) ∧
+    getOn f sl (.plain "chewing_cand_list_has_next") = .ok (sl, .int 0) ∧
+    getOn f sl (.plain "chewing_cand_list_has_prev") = .ok (sl, .int 0) ∧
+    getOn f sl .candHasNext = .ok (sl, .int 0) := by
+  obtain ⟨_, all, _, tp, _, hall, _, htp, _, _, _, _, _, _, hsel, hfa, _, hft, hcp, _⟩ := ofEditor_ok env bopo hf
+  have hst : ∀ s, e.state ≠ .selecting s := by
+    intro s h; unfold Editor.isSelecting at hs; rw [h] at hs; cases hs
+  have h1 : all = none := by
+    unfold Editor.allCandidates at hall
+    split at hall
+    · rename_i s h; exact absurd h (hst s)
+    · simp only [Outcome.ok.injEq] at hall; exact hall.symm
+  have h2 : tp = none := by
+    unfold Editor.totalPage at htp
+    split at htp
+    · rename_i s h; exact absurd h (hst s)
+    · simp only [Outcome.ok.injEq] at htp; exact htp.symm
+  have h3 : e.currentPageNo = none := by
+    unfold Editor.currentPageNo
+    split
+    · rename_i s h; exact absurd h (hst s)
+    · rfl
+  rw [value_cand_CheckDone, value_cand_TotalPage, value_cand_TotalChoice, value_cand_CurrentPage,
+    value_cand_list_has_next, value_cand_list_has_prev]
+  simp [getOn, hsel, hs, hfa, h1, hft, h2, hcp, h3, falseValue, asCInt]
+
+end Consistency
+
+/-! ## 4. the `_static` variants -/
+
+/-- a text that fits its buffer: the static and the heap variant show the same C string, the whole text -/
+theorem static_text_fits (cap : Nat) (t : Text) (ht : C15.IsText t) (hfit : CStr.utf8Len t < cap) :
+    (GVal.static (copyCstr cap (utf8Encode t))).text = some (utf8Encode t) ∧
+    (GVal.heap (heapCstr (utf8Encode t))).text = some (utf8Encode t) := by
+  refine ⟨C15.static_eq_heap_partial cap t ht hfit, ?_⟩
+  obtain ⟨buf, h1, h2, _⟩ := C15.heap_text_valid t ht
+  rw [h1]; exact h2
+
+/-- any text: the static variant shows a NUL-terminated WHOLE-CHARACTER prefix, the longest that fits `cap - 1` bytes
+    (C15's `cstr_wellformed_all`) -/
+theorem static_text_prefix (cap : Nat) (hcap : 1 ≤ cap) (t : Text) (ht : C15.IsText t) :
+    ∃ k, k ≤ t.length ∧ (GVal.static (copyCstr cap (utf8Encode t))).text = some (utf8Encode (t.take k)) ∧
+      utf8Decode (utf8Encode (t.take k)) = some (t.take k) ∧ CStr.utf8Len (t.take k) ≤ cap - 1 ∧
+      (k = t.length ∨ cap - 1 < CStr.utf8Len (t.take (k + 1))) := by
+  obtain ⟨_, k, hk, h1, h2, h3, h4, _⟩ := C15.cstr_wellformed_all cap hcap t ht
+  exact ⟨k, hk, h1, h2, h3, h4⟩
+
+/-- the static variant `fnS` and the heap variant `fnH` of a getter of the text `t`, on the same facts -/
+def StaticAgrees (f : GFacts) (s : GSlots) (fnS fnH : String) (t : Text) : Prop :=
+  ∃ s' v w, getOn f s (.plain fnS) = .ok (s', v) ∧ getOn f s (.plain fnH) = .ok (s, w) ∧
+    v.text = some (utf8Encode t) ∧ w.text = some (utf8Encode t) ∧
+    s'.candIter = s.candIter ∧ s'.intervalIter = s.intervalIter
+
+def StaticPrefix (f : GFacts) (s : GSlots) (fnS : String) (cap : Nat) (t : Text) : Prop :=
+  ∃ s' v k, getOn f s (.plain fnS) = .ok (s', v) ∧ k ≤ t.length ∧ v.text = some (utf8Encode (t.take k)) ∧
+    CStr.utf8Len (t.take k) ≤ cap - 1 ∧ (k = t.length ∨ cap - 1 < CStr.utf8Len (t.take (k + 1)))
+
+/-- **`_static` = heap variant whenever the text fits the buffer** (255 bytes; the phonetic buffer 15) -/
+theorem static_eq_heap_fits (f : GFacts) (s : GSlots) :
+    (C15.IsText f.display → CStr.utf8Len f.display < 256 →
+      StaticAgrees f s "chewing_buffer_String_static" "chewing_buffer_String" f.display) ∧
+    (C15.IsText f.commit → CStr.utf8Len f.commit < 256 →
+      StaticAgrees f s "chewing_commit_String_static" "chewing_commit_String" f.commit) ∧
+    (C15.IsText f.bopo → CStr.utf8Len f.bopo < 16 →
+      StaticAgrees f s "chewing_bopomofo_String_static" "chewing_bopomofo_String" f.bopo) := by
+  refine ⟨fun ht hfit => ?_, fun ht hfit => ?_, fun ht hfit => ?_⟩
+  · obtain ⟨h1, h2⟩ := static_text_fits 256 _ ht hfit
+    exact ⟨_, _, _, value_buffer_String_static f s, value_buffer_String f s, h1, h2, rfl, rfl⟩
+  · obtain ⟨h1, h2⟩ := static_text_fits 256 _ ht hfit
+    exact ⟨_, _, _, value_commit_String_static f s, value_commit_String f s, h1, h2, rfl, rfl⟩
+  · obtain ⟨h1, h2⟩ := static_text_fits 16 _ ht hfit
+    exact ⟨_, _, _, value_bopomofo_String_static f s, value_bopomofo_String f s, h1, h2, rfl, rfl⟩
+
+/-- `chewing_aux_String` unwraps `CString::new`: for a text (no U+0000) it hands out the whole notification -/
+theorem value_aux_String (f : GFacts) (s : GSlots) (ht : C15.IsText f.notice) :
+    ∃ w, getOn f s (.plain "chewing_aux_String") = .ok (s, w) ∧ w.text = some (utf8Encode f.notice) := by
+  obtain ⟨buf, h1, h2, _⟩ := C15.heap_text_valid f.notice ht
+  have : getOn f s (.plain "chewing_aux_String") =
+      (match heapCstr (utf8Encode f.notice) with
+        | some b => Outcome.ok (s, GVal.heap (some b))
+        | none => Outcome.panic "CString::new unwrap") := by
+    show Outcome.map _ (getValue f "notification" "heap_unwrap" "") = _
+    have hv : getValue f "notification" "heap_unwrap" "" =
+        (match heapCstr (utf8Encode f.notice) with
+          | some b => Outcome.ok (GVal.heap (some b), none)
+          | none => Outcome.panic "CString::new unwrap") := rfl
+    rw [hv, h1]; rfl
+  rw [this, h1]
+  exact ⟨_, rfl, h2⟩
+
+/-- **… a NUL-terminated whole-character prefix otherwise** -/
+theorem static_prefix (f : GFacts) (s : GSlots) :
+    (C15.IsText f.display → StaticPrefix f s "chewing_buffer_String_static" 256 f.display) ∧
+    (C15.IsText f.commit → StaticPrefix f s "chewing_commit_String_static" 256 f.commit) ∧
+    (C15.IsText f.notice → StaticPrefix f s "chewing_aux_String_static" 256 f.notice) ∧
+    (C15.IsText f.bopo → StaticPrefix f s "chewing_bopomofo_String_static" 16 f.bopo) := by
+  refine ⟨fun ht => ?_, fun ht => ?_, fun ht => ?_, fun ht => ?_⟩
+  · obtain ⟨k, hk, h1, _, h3, h4⟩ := static_text_prefix 256 (by decide) _ ht
+    exact ⟨_, _, k, value_buffer_String_static f s, hk, h1, h3, h4⟩
+  · obtain ⟨k, hk, h1, _, h3, h4⟩ := static_text_prefix 256 (by decide) _ ht
+    exact ⟨_, _, k, value_commit_String_static f s, hk, h1, h3, h4⟩
+  · obtain ⟨k, hk, h1, _, h3, h4⟩ := static_text_prefix 256 (by decide) _ ht
+    exact ⟨_, _, k, value_aux_String_static f s, hk, h1, h3, h4⟩
+  · obtain ⟨k, hk, h1, _, h3, h4⟩ := static_text_prefix 16 (by decide) _ ht
+    exact ⟨_, _, k, value_bopomofo_String_static f s, hk, h1, h3, h4⟩
+
+/-- a `_static` call writes its own buffer only: the iterator slots and the other buffers stay -/
+theorem plain_keeps_iters (f : GFacts) (s s' : GSlots) (fn : String) (v : GVal)
+    (h : getOn f s (.plain fn) = .ok (s', v)) : s'.candIter = s.candIter ∧ s'.intervalIter = s.intervalIter := by
+  simp only [getOn] at h
+  cases hr : getterRow fn with
+  | none => rw [hr] at h; cases h
+  | some row =>
+    obtain ⟨m, conv, arg, n⟩ := row
+    rw [hr] at h
+    simp only at h
+    cases hv : getValue f m conv arg with
+    | ok r =>
+      rw [hv] at h
+      simp only [Outcome.map, Outcome.ok.injEq, Prod.mk.injEq] at h
+      rw [← h.1]
+      unfold GSlots.setBuf
+      split <;> exact ⟨rfl, rfl⟩
+    | panic p => rw [hv] at h; cases h
+    | outOfFuel => rw [hv] at h; cases h
+
+/-! ## 5. NULL context -/
+
+/-- every `int` getter answers -1 for a NULL context — except `cand_list_has_next/prev`, which answer 0; the heap string
+    getters hand out an owned "", the static ones the global "" -/
+theorem null_answers :
+    (∀ fn ∈ ["chewing_buffer_Check", "chewing_buffer_Len", "chewing_cursor_Current", "chewing_bopomofo_Check",
+        "chewing_commit_Check", "chewing_aux_Check", "chewing_aux_Length", "chewing_cand_TotalPage",
+        "chewing_cand_TotalChoice", "chewing_cand_ChoicePerPage", "chewing_cand_CurrentPage", "chewing_cand_CheckDone",
+        "chewing_keystroke_CheckIgnore", "chewing_keystroke_CheckAbsorb"], getNull (.plain fn) = .ok (.int (-1))) ∧
+    getNull (.plain "chewing_cand_list_has_next") = .ok (.int 0) ∧
+    getNull (.plain "chewing_cand_list_has_prev") = .ok (.int 0) ∧
+    (∀ fn ∈ ["chewing_buffer_String", "chewing_bopomofo_String", "chewing_commit_String", "chewing_aux_String"],
+      getNull (.plain fn) = .ok (.heap (some [0]))) ∧
+    (∀ fn ∈ ["chewing_buffer_String_static", "chewing_bopomofo_String_static", "chewing_commit_String_static",
+        "chewing_aux_String_static"], getNull (.plain fn) = .ok .globalEmpty) := by decide
+
+/-! ## 6. non-vacuity -/
+
+/-- facts of an open list: 13 candidates, 4 per page, page 1 of 4 -/
+def exFacts : GFacts :=
+  { display := [0x6E2C], len := 1, isEmpty := false, cursor := 1, commit := [], notice := [0x52A0, 0x5165], bopo := [],
+    enteringSyllable := false, isSelecting := true,
+    allCandidates := some ((List.range 13).map fun i => [0x6E2C + i]),
+    paginated := some (((List.range 13).map fun i => [0x6E2C + i]).drop 4),
+    totalPage := some 4, currentPageNo := some 1, hasNextSel := false, hasPrevSel := false,
+    intervals := [(0, 1, true)], last := .absorb, options := { Config.init.opts with candidatesPerPage := 4 } }
+
+example : getOn exFacts {} (.plain "chewing_cand_TotalPage") = .ok ({}, .int 4) := by decide
+example : getOn exFacts {} (.plain "chewing_cand_TotalChoice") = .ok ({}, .int 13) := by decide
+example : getOn exFacts {} (.plain "chewing_cand_CurrentPage") = .ok ({}, .int 1) := by decide
+example : getOn exFacts {} (.plain "chewing_aux_Length") = .ok ({}, .int 2) := by decide
+example : (getOn exFacts {} (.plain "chewing_aux_String")).map (·.2.text) = .ok (some [0xE5, 0x8A, 0xA0, 0xE5, 0x85, 0xA5]) := by
+  decide
+/-- the hypotheses of `static_eq_heap_fits` / `static_prefix` are satisfiable, and a text LONGER than the buffer is cut at a
+    character: 6 three-byte characters into the 16-byte phonetic buffer give 5 characters (15 bytes) -/
+example : C15.IsText exFacts.display ∧ CStr.utf8Len exFacts.display < 256 := by
+  refine ⟨?_, by decide⟩
+  intro c hc
+  simp only [exFacts, List.mem_singleton] at hc
+  subst hc
+  exact ⟨by decide, by decide⟩
+example : (GVal.static (copyCstr 16 (utf8Encode (List.replicate 6 0x3105)))).text =
+    some (utf8Encode (List.replicate 5 0x3105)) := by decide
+/-- the enumeration loop on page 1 hands out items 4 … 12 -/
+example : (match getOn exFacts {} .candEnumerate with
+    | .ok (s, _) => (candLoop exFacts 100 s []).map (fun (r : GSlots × List GVal) => r.2.length)
+    | _ => .panic "") = .ok 9 := by decide
+/-- `chewing_cand_Enumerate` with no list open keeps a STALE iterator; `chewing_cand_hasNext` hides it (answers 0),
+    `chewing_cand_String` would still pop it -/
+example : (getOn { exFacts with isSelecting := false, paginated := none } { candIter := some [[65]] } .candEnumerate).map (·.1.candIter)
+    = .ok (some [[65]]) := by decide
+example : (getOn { exFacts with isSelecting := false } { candIter := some [[65]] } .candHasNext).map (·.2) = .ok (.int 0) := by
+  decide
+
 end Chewing.C17CApi
